@@ -448,9 +448,11 @@ def semantics_tie(ctx):
     rnd = ctx.rng("semtie")
     g = [0, 1, 2, 31, 32, 33, 255, 256, HALF - 1, HALF, HALF + 1, W - 33, W - 32, W - 2, W - 1, rnd.randrange(W), rnd.randrange(W)]
     ops2 = BOPS_ARITH + ["shl", "shr", "sar"]
-    exprs = [f"map (fun p => bop_sem B_{o} (fst p) (snd p)) (list_prod G G)" for o in ops2]
+    ge = [0, 1, 2, 3, 255, 256, 257]        # exponents: modular exponentiation with 256-bit exponents is slow in vm_compute
+    exprs = [f"map (fun p => bop_sem B_{o} (fst p) (snd p)) (list_prod G {'GE' if o == 'exp' else 'G'})" for o in ops2]
     exprs += ["map (uop_sem U_iszero) G", "map (uop_sem U_not) G", "map ceil32_sem G"]
-    imports = ("From Verif Require Import Base.Word256 C15.Syntax.\n" + f"Definition G := {coqrun.zlist(g)}.\n")
+    imports = ("From Verif Require Import Base.Word256 C15.Syntax.\n" + f"Definition G := {coqrun.zlist(g)}.\n"
+               f"Definition GE := {coqrun.zlist(ge)}.\n")
     outs = coqrun.eval_zlists(imports, exprs, "c15sem", shard=9)
     chain = Chain("cancun")
 
@@ -463,8 +465,8 @@ def semantics_tie(ctx):
             res.append(int.from_bytes(r.out, "big") if r.ok and len(r.out) == 32 else None)
         return res
     n, bad = 0, None
-    pairs = [(a, b) for a in g for b in g]
     for o, exp in zip(ops2, outs):
+        pairs = [(a, b) for a in g for b in (ge if o == "exp" else g)]
         got = run_ir(["seq", ["mstore", 0, [o, ["calldataload", 0], ["calldataload", 32]]], ["return", 0, 32]], pairs)
         for (a, b), e, r in zip(pairs, exp, got):
             n += 1
